@@ -37,6 +37,21 @@ CHECKS: dict[str, dict] = {
         "terminal model and compared cell for cell with the source pixels.",
         design_ref="DESIGN.md 3 C02, notes/C02.md",
     ),
+    "C03": dict(
+        technique="TLA+ model of the kitty chunk producer composed with the protocol receiver (Gfx.tla, every payload "
+        "length class) + render-loop model (MC_GfxRender); chunk sequences replayed into the real "
+        "Transmission.get_chunks; command sequences of real renders judged by TLC (Trace_Gfx.tla) on "
+        "decoded projections",
+        text="TLC checks receiver-accepts and reassembled-length for every payload length through 3 chunks at the "
+        "real chunk size and the framing/resolution/strip/size-key/read-from-file rules on a model of the "
+        "render loops; all printed chunk sequences are replayed into the real code; thousands of real kitty "
+        "and iterm2 renders (boundary payload sizes, all methods, compression, alpha, z, jpeg, "
+        "read_from_file x source kind) are decoded by a dumb projection and judged by TLC.",
+        design_ref="DESIGN.md 3 C03, notes/C03.md",
+        level_note="Trusted base: TLC; harness/c03_project.py (base64/zlib/PNG/JPEG decoding and byte comparison "
+        "with a Pillow BOX reference - no judgement); JPEG payloads are only required to decode to the "
+        "right mode and dimensions.",
+    ),
     "C06": dict(
         technique="Terminal.tla in absolute line coordinates + TLC trace validation of the bytes real draw() "
         "calls deliver (both APIs); DrawValidate.tla table replayed into the real draw()",
@@ -86,6 +101,27 @@ CHECKS: dict[str, dict] = {
         "must equal the specified program for every operation and failure point, and random operation "
         "logs are validated against the lifecycle automaton.",
         design_ref="DESIGN.md 3 C10",
+    ),
+    "C12": dict(
+        technique="TLA+ statement-level model of query_terminal/read_tty and their callers against a virtual-time "
+        "tty (Tty.tla) explored by TLC; every explored schedule replayed into the real functions on a "
+        "virtual-time device; syscall traces of virtual and real-pty runs validated by TLC (Trace_Tty.tla)",
+        text="TLC explores reply partitions, delays, unsupported-query subsets and terminators and checks result = "
+        "replies, nothing left unread, elapsed <= timeout; the environment schedule of every behaviour is "
+        "replayed deterministically into the real code; colour replies over all component widths, identity "
+        "/ version tables around the support thresholds and real pty runs are validated against the spec.",
+        design_ref="DESIGN.md 3 C12, notes/C12.md",
+    ),
+    "C13": dict(
+        category="fault_enumeration",
+        technique="Tty.tla with a Fault action on every syscall (MC_TtyFault) + replay of every enumerated fault on "
+        "a virtual tty and on a real pty (exceptions, KeyboardInterrupt, real SIGINT), call logs validated "
+        "by TLC",
+        text="TLC enumerates (operation, read mode, initial attribute word, syscall index, before/after, kind) and "
+        "checks the attribute word at termination equals the one at entry; every enumerated fault is "
+        "injected into the real code on a real pty and termios.tcgetattr before/after is compared byte for "
+        "byte; draw()'s echo suppression included.",
+        design_ref="DESIGN.md 3 C13, notes/C13.md",
     ),
     "C17": dict(
         technique="TLA+ transcription of the canvas trim computation (UrwidCanvas.tla) checked exhaustively and "
